@@ -338,6 +338,24 @@ def r4(ctx, facts):
 ALLOW_MISSING = {"UdtStrict": {"c"}, "UdtAllowMissingFirst": {"a", "c"}, "UdtOrderedDefaults": {"b"}, "RowDefaults": set()}
 
 
+def _chase_bool(b, op, hops=6):
+    """(defining statement, inverted?) of a bool operand, through copies and `!`"""
+    inv = False
+    l = op[1][0] if op[0] in ("c", "m") else None
+    sd = None
+    while l is not None and hops > 0:
+        hops -= 1
+        sd = b.single_def(l)
+        if sd and sd[0] == "stmt" and sd[3][0] == "use" and sd[3][1][0] in ("c", "m") and not sd[3][1][1][1]:
+            l = sd[3][1][1][0]
+        elif sd and sd[0] == "stmt" and sd[3][0] == "un" and sd[3][1] == "Not" and sd[3][2][0] in ("c", "m") and not sd[3][2][1][1]:
+            inv = not inv
+            l = sd[3][2][1][0]
+        else:
+            break
+    return sd, inv
+
+
 def _missing_checks_gate(b, flag_of, _spans):
     """-> (ok, detail, site). E = blocks that build ValueMissingForUdtField; G = a switch that dominates all of them and has a
     successor from which none of them is reachable (the checks are skipped on that edge). No such switch: nothing is skipped.
@@ -370,7 +388,7 @@ def _missing_checks_gate(b, flag_of, _spans):
         site = b.term_span(g)
         if t[1][0] not in ("c", "m"):
             return False, "the branch that skips the missing-field checks tests a constant", site
-        sd = b.single_def(t[1][1][0])
+        sd, inverted = _chase_bool(b, t[1])
         # a gate on the visited flags themselves (`if !(a && b && c)`): the skip edge then knows every flag
         locs = backward_slice(b, t[1])[0]
         if not (sd and sd[0] == "stmt" and sd[3][0] == "bin" and sd[3][1] in ("Gt", "Ne", "Eq", "Lt", "Ge", "Le")):
@@ -414,6 +432,8 @@ def _missing_checks_gate(b, flag_of, _spans):
             op = {"Gt": "Lt", "Lt": "Gt", "Le": "Ge", "Ge": "Le"}.get(op, op)
         edges = {int(v): tg for v, tg in t[2]}
         false_tg, true_tg = edges.get(0, t[3]), (t[3] if 0 in edges else edges.get(1, t[3]))
+        if inverted:
+            false_tg, true_tg = true_tg, false_tg
         zero_tg = {"Gt": false_tg, "Ne": false_tg, "Eq": true_tg, "Le": true_tg}.get(op)
         if zero_tg is None or zero_tg not in skip or len(skip) != 1:
             return False, "the missing-field checks are skipped on an edge that is not `countdown == 0` (comparison %s)" % op, site
@@ -425,10 +445,17 @@ def _missing_checks_gate(b, flag_of, _spans):
             for pb in b.pred.get(dbb, []) if isinstance(b.pred, dict) else b.pred[dbb]:
                 pt = b.term(pb)
                 if pt[0] == "switch" and pt[1][0] in ("c", "m"):
-                    gl = backward_slice(b, pt[1])[0] & flags
+                    gl = (backward_slice(b, pt[1])[0] | {pt[1][1][0]}) & flags
                     pe = {int(v): tg for v, tg in pt[2]}
-                    if len(gl) == 1 and pe.get(0) == dbb:
+                    _sd, inv = _chase_bool(b, pt[1])
+                    # entered where the flag WAS false: edge 0 of `flag`, or the non-zero edge of `!flag`
+                    on_false = (pe.get(0) == dbb) if not inv else (pe.get(0) != dbb)
+                    if len(gl) == 1 and on_false:
                         guard = next(iter(gl))
+            if not raised and guard is not None:
+                # `let first = !flag; flag = true; if first { n -= 1 }`: the flag was raised on the way to the test
+                raised = [st[1][0] for x in sorted(b.live_blocks) if b.dominates(x, dbb) for st in b.stmts(x)
+                          if st[0] == "A" and not st[1][1] and st[1][0] == guard and st[2][0] == "use" and st[2][1][0] == "k" and int(st[2][1][3]) == 1][:1]
             if len(raised) != 1 or guard != raised[0]:
                 return False, "the countdown is decremented where no visited flag is raised from false to true (%s): a field visited twice, or an excess field, would count as a required one" % b.term_span(dbb), b.term_span(dbb)
             seen_flags.add(raised[0])
